@@ -80,6 +80,14 @@ CLAIMS = {
           "(R4) lazily opened streams are used only inside their with block; (R5) every read in a streaming loop has a constant bound, whole-object reads in import are guarded by the memory budget. Does NOT decide measured memory or the run-time descriptor census."),
     note="Garbage collection is not relied upon; platform models Linux + macOS.",
     technique="leak / one-open-file typestate on CFGs with exception edges + platform-aware constant folding + bounded-read table", ref="5/C18"),
+ 'C01': dict(
+    text=("Decides structural clauses of the round trip on every write/read path: (R1) every chunked copy/hash loop ends only on the empty chunk, each chunk reaches the sink exactly once and the hasher exactly once on every path through the body (uncompressed bytes hashed), the compressor is flushed after the loop; "
+          "(R2) returned key = hexdigest of the hasher that saw the written bytes, returned size = accumulated chunk lengths, the loose key is the writing wrapper's digest, one returned key per stream in the direct path; "
+          "(R3) configuration parametricity: every hash/compression argument is traced through parameters and constructor bindings at all call sites to the container configuration, literals are flagged (tabled exemptions: init defaults, AUTO sampling compressor); "
+          "(R4) writer/reader agreement: loose path terms of writer, reader and listing; decompresser wraps the packed reader iff the row's compressed flag at every construction site; staged row keys = table columns; positional column order of every namedtuple construction and left_key; metadata field mapping; (R5) decompresser rewind resets all state. "
+          "Does NOT decide value-level hashing/zlib/slicing arithmetic."),
+    note="hashlib/zlib/slicing trusted value-correct; read(n) returns b'' only at EOF.",
+    technique="path enumeration over loop bodies + interprocedural provenance + sibling term comparison (AST/def-use)", ref="5/C01"),
 }
 
 PENDING_REASON = "check not built yet in this session (work in progress; DESIGN.md section 5 describes the planned static rules)"
